@@ -1,8 +1,9 @@
 ----------------------------- MODULE EmitForm -----------------------------
 (* the form configurations, variables and Set values of Form.tla for the driver *)
 EXTENDS Form, Json, SequencesExt
-ASSUME JsonSerialize("formcfg.json", [configs |-> SetToSeq(Configs), vars |-> SetToSeq(Vars), values |-> SetToSeq(SetValues)])
+ASSUME JsonSerialize("formcfg.json", [configs |-> SetToSeq(Configs), vars |-> SetToSeq(Vars), values |-> SetToSeq(SetValues),
+                                       types |-> DocTypeAttr])
 ASSUME JsonSerialize("symbols.json", Symbols)
-EInit == cfg = <<>> /\ vals = <<>> /\ nops = 0 /\ last = <<>>
+EInit == cfg = <<>> /\ vals = <<>> /\ nops = 0 /\ last = <<>> /\ ftype = ""
 ENext == UNCHANGED fvars
 =============================================================================
